@@ -50,6 +50,8 @@ def gen(rng, tier):
     # serialized sizes across 255 / 256 and 65535 / 65536): formats that reserve a marker value for the length collide here
     for stack in stacks:
         yield Case(mk(stack, [(n0, n0 % 251) for n0 in range(236, 272)], [], []), False, 'sizes-around-255-' + stack)
+        yield Case(mk(stack, [(n0, n0 % 251) for n0 in range(110, 140)], [], []), False, 'sizes-around-128-' + stack)
+        yield Case(mk(stack, [(n0, n0 % 251) for n0 in range(16372, 16392)], [], []), False, 'sizes-around-16384-' + stack)
         for base in ([65500, 65530] if tier == 'quick' else [65500, 65510, 65520, 65530, 65536]):
             yield Case(mk(stack, [(n0, n0 % 251) for n0 in range(base, base + 10)], [], []), False, 'sizes-around-65535-' + stack)
     # several records above 1 MiB in one chunk (equal and different sizes, different contents), no faults and one short read
@@ -60,6 +62,10 @@ def gen(rng, tier):
         items = [(a0, 10), (rng.choice([3, 0, 8192]), 5), (a0, 20), (a0 + rng.choice([0, 1, 7]), 30)]
         rng.shuffle(items)
         yield Case(mk(stack, items, [], [] if k % 2 == 0 else [['give', 100000], ['give', 5]]), k % 2 == 1, 'several-above-1MiB-' + stack)
+    # one production chunk (through the real sorter) holding more than 2^20 records, compressed: judged inside the harness
+    # (complete and in order, or an error reported); thorough tier / whenever an anchored file differs
+    if tier == 'thorough':
+        yield Case(sx.dump(['xsortquota', 2000000, 1, 10**12, (1 << 20) + rng.randint(1, 2000)]), True, 'million-records-one-chunk')
     n = 500 if tier == 'quick' else 12000
     for _ in range(n):
         stack = rng.choice(stacks)
@@ -92,6 +98,8 @@ def canon(case, out):
 
 
 def agree(case, impl, model):
+    if case.startswith('(xsortquota'):
+        return impl in ('(r oracle-only reported)', '(r oracle-only complete)')
     if 'oracle-only' in model:
         return True          # lz4 stack: decided by the oracle below
     return canon(case, impl) == canon(case, model)
@@ -99,6 +107,8 @@ def agree(case, impl, model):
 
 def oracle_line(case, impl, model, bad):
     """wrapped stacks: the extracted chunk_oracle judges the observed outcome"""
+    if case.startswith('(xsortquota'):
+        return None
     c = sx.parse(case)
     if 'oracle-only' not in model:
         # bare / BufWriter stacks are compared EXACTLY with the model first (stored bytes, item sequence).  That also fixes
@@ -120,6 +130,8 @@ def oracle_line(case, impl, model, bad):
         hard = any(x in ('err', 'zero') for x in c[3][1:] + c[4][1:]) or len(c) > 5
         return sx.dump(['chunkchk', c[2], 1 if d == 'ok' else 0, got, 1 if hard else 0])
     try:
+        if 'ORACLE-FAIL' in impl:
+            raise ValueError('a harness-level oracle failed')
         o = sx.parse(impl)
         d = [x for x in o if isinstance(x, list) and x[0] == 'dump'][0][1]
         got = [x for x in o if isinstance(x, list) and x[0] == 'got'][0]
